@@ -371,6 +371,12 @@ func ReaderMain(arg string) int {
 		rosmar.VerifSetClock(func() uint64 { return base + n.Add(1)*1000 })
 	}
 	ctx := context.Background()
+	if a.TryCreateNew {
+		if b0, cerr := rosmar.OpenBucket("rosmar://"+a.Dir+"/"+a.Name, a.Name, rosmar.CreateNew); cerr == nil && b0 != nil {
+			out.CreateNewAccepted = true
+			b0.Close(ctx)
+		}
+	}
 	b, err := rosmar.OpenBucket("rosmar://"+a.Dir+"/"+a.Name, a.Name, rosmar.OpenMode(a.Mode))
 	if err != nil {
 		out.Err = "open: " + err.Error()
